@@ -2,6 +2,7 @@
 Lock-region (lockset) analysis (DESIGN.md section 4, C07)."""
 import re
 
+import common
 from common import make_pt, pt_deref
 
 LEVEL = 'other'
@@ -123,44 +124,40 @@ def r1(R1, cfg, F, hr):
         why = ''
         root = ap[0]
         if name == 'get' and root == 'arg1' and b.local_ty(1).startswith('&entry::EntryStorage'):
-            # shared access: read / get / write(self side)
-            g = read_guard_call(F, b) if hr else None
-            wg = [x for x in b.calls() if x.callee and re.search(r'utils::private::RwLock::<T>::write$', x.callee.best)]
+            # shared access (read / get / write): on the normal form, the access must never be reached on a path where the
+            # entry is dynamic (`self.dynamic` is Some) unless that path acquired the entry's lock, and the lock is held
             if not hr:
                 kind = 'no-reloading'   # without the feature nothing ever writes a shared entry (write is compiled out)
                 ok = not F.find(r'entry::swap_any$')
                 why = 'swap_any exists although hot-reloading is off'
-            elif g is not None:
-                kind = 'read'
-                ok = b.dominates(g.bb, c.bb) and g.bb != c.bb
-                why = 'the value is dereferenced before the read guard is taken'
-                # the guard must flow into the returned AssetReadGuard
-                rets = [s for _, _, s in b.assigns() if s['place']['l'] == 0 and s['rv']['k'] == 'aggregate' and s['rv'].get('adt') == 'entry::AssetReadGuard']
-                okg = len(rets) == 1 and 'guard' in rets[0]['rv']['fields'] and \
-                    b.access_path(rets[0]['rv']['ops'][rets[0]['rv']['fields'].index('guard')]) == ['call@bb%d' % g.bb]
-                if not okg:
-                    ok = False
-                    why = 'the read guard does not travel with the returned reference'
-            elif wg:
-                kind = 'write'
-                reg = b.region_of(wg[0])
-                ok = len(wg) == 1 and (c.bb, c.idx) in reg
-                why = 'the value is accessed for writing outside the write guard'
             else:
-                # must be behind the dynamic.is_some() panic
-                kind = 'get'
-                chk = [x for x in b.calls() if x.callee and x.callee.best == 'std::option::Option::<T>::is_some'
-                       and (b.access_path(x.args[0]) or [])[-2:] == ['dynamic', '&']]
-                ok = False
-                why = 'an unguarded shared access must be dominated by the `dynamic.is_some()` => panic check'
-                if len(chk) == 1:
-                    sw = [bb for bb, t in b.terms() if t['k'] == 'switch' and b.access_path(t['discr']) == ['call@bb%d' % chk[0].bb]]
-                    if len(sw) == 1:
-                        zero = [d for d, lab in b.edges(sw[0]) if lab == 'sw:0']
-                        ok = bool(zero) and c.bb not in b.reachable([0], removed_edges=[(sw[0], zero[0])])
-                        # and the other edge diverges (no return reachable)
-                        other = [d for d, lab in b.edges(sw[0]) if lab != 'sw:0']
-                        ok = ok and not (b.reachable(other) & set(b.return_blocks()))
+                DYN = ['arg1', 'dynamic']
+                sws = []
+                for bb, t in b.terms():
+                    if t['k'] == 'switch' and not b.blocks[bb]['cleanup'] and bb in b.live_blocks(unwind=False):
+                        tst = common.switch_test(b, bb)
+                        if tst and tst[0] == 'discr' and common.strip_refs(common.deep_path(b, tst[1])) == DYN:
+                            sws.append(bb)
+                locks = [x for x in b.calls() if x.callee and re.search(r'utils::private::RwLock::<T>::(read|write)$', x.callee.best)
+                         and common.strip_refs(common.deep_path(b, x.args[0]))[:4] == DYN + ['as:Some', '0'] and 'lock' in common.strip_refs(common.deep_path(b, x.args[0]))]
+                kind = ('write' if any(x.callee.name == 'write' for x in locks) else 'read') if locks else 'get'
+                ok = bool(sws) and c.bb not in b.reachable([0], removed_blocks=sws)
+                why = 'a shared access must be preceded on every path by a test of `self.dynamic`'
+                if ok:
+                    for sw in sws:
+                        some = b.variant_edge(sw, 1)
+                        if some is not None and c.bb in b.reachable([some], removed_blocks=[x.bb for x in locks]):
+                            ok = False
+                            why = ('the value of a dynamic entry (one the reloader may rewrite) is accessed on a path that took no lock: '
+                                   'an unguarded access is allowed only behind the `dynamic.is_some()` => panic check')
+                if ok and kind == 'write':
+                    ok = len(locks) == 1 and (c.bb, c.idx) in b.region_of(locks[0])
+                    why = 'the value is accessed for writing outside the write guard'
+                elif ok and kind == 'read':
+                    rets = [s for _, _, s in b.assigns() if s['place']['l'] == 0 and s['rv']['k'] == 'aggregate' and s['rv'].get('adt') == 'entry::AssetReadGuard']
+                    ok = len(rets) >= 1 and all('guard' in r['rv']['fields'] and
+                                                any(('call', x.bb) in b.origins(r['rv']['ops'][r['rv']['fields'].index('guard')]) for x in locks) for r in rets)
+                    why = 'the read guard does not travel with the returned reference'
         elif name == 'get_mut':
             kind = 'owned-mut'
             ty = b.local_ty(int(root[3:])) if root.startswith('arg') else ''
@@ -204,14 +201,26 @@ def r2(R2, cfg, F):
                 R2.bad(cfg, b.path, 'guard-field-missing', 'AssetReadGuard has no guard field although hot-reloading is on', '%s:%s' % (b.file, s['line']))
                 continue
             gop = rv['ops'][rv['fields'].index('guard')]
-            ap = b.access_path(gop)
-            ok = False
-            if ap and ap[0].startswith('call@bb'):
-                g = read_guard_call(F, b)
-                ok = g is not None and ap == ['call@bb%d' % g.bb]
-            elif ap and ap[0].startswith('arg') and ap[1:] == ['guard']:
-                ok = 'entry::AssetReadGuard' in b.local_ty(int(ap[0][3:])) and not b.local_ty(int(ap[0][3:])).startswith('&')
-            R2.check(ok, cfg, b.path, 'guard-travels', 'the `guard` of a constructed AssetReadGuard must be a fresh lock.read() on the entry or the guard of the consumed AssetReadGuard; it is %s' % ap,
+            # every value that can reach the field is: the result of lock.read() (possibly in Some(..)), None (static entry:
+            # R1 decides when that is allowed), or the guard of an AssetReadGuard consumed by value
+            def is_read(site):
+                return bool(site.callee and re.search(r'utils::private::RwLock::<T>::read$', site.callee.best))
+
+            def fine(root, depth=0):
+                if root[0] == 'call':
+                    return any(is_read(x) for x in b.calls() if x.bb == root[1])
+                if root[0] == 'arg':
+                    ty = b.local_ty(root[1])
+                    return 'entry::AssetReadGuard' in ty and not ty.startswith('&')
+                if root[0] == 'agg' and depth < 3:
+                    a = b.blocks[root[1]]['stmts'][root[2]]['rv']
+                    if a.get('adt') == 'std::option::Option':
+                        return a.get('variant_name') == 'None' or all(fine(r, depth + 1) for r in b.origins(a['ops'][0]))
+                return False
+            roots = b.origins(gop)
+            ok = bool(roots) and all(fine(r) for r in roots)
+            ap = sorted(roots)
+            R2.check(ok, cfg, b.path, 'guard-travels', 'the `guard` of a constructed AssetReadGuard must be a fresh lock.read() on the entry or the guard of the consumed AssetReadGuard; it comes from %s' % ap,
                      '%s:%s' % (b.file, s['line']))
     # try_map returns the original guard on None
     b = F.one(r"^entry::AssetReadGuard::<'a, T>::try_map$")
@@ -366,23 +375,12 @@ def r5(R5, cfg, F):
     if not rl:
         R5.missing(cfg, 'HotReloader::reload')
     else:
-        tok = [c for c in rl.calls() if c.callee and c.callee.name == 'get_unique_token']
-        snd = [c for c in rl.calls() if c.callee and c.callee.best == 'crossbeam_channel::Sender::<T>::send']
-        wt = [c for c in rl.calls() if c.callee and c.callee.name == 'wait_for_answer']
-        isok = [c for c in rl.calls() if c.callee and c.callee.best == 'std::result::Result::<T, E>::is_ok']
-        ok = len(tok) == 1 and len(snd) == 1 and len(wt) == 1 and len(isok) == 1
+        ok, why_rl = common.reload_waits_for_own_token(rl)
         if ok:
-            ok = rl.access_path(wt[0].args[1]) == ['call@bb%d' % tok[0].bb]
+            snd = [c for c in rl.calls() if c.callee and c.callee.best == 'crossbeam_channel::Sender::<T>::send']
             msg = [s for s in agg_of(rl, snd[0].args[1]) if s['rv'].get('variant_name') == 'Ptr']
-            ok = ok and len(msg) == 1 and rl.access_path(msg[0]['rv']['ops'][2]) == ['call@bb%d' % tok[0].bb] \
-                and rl.access_path(msg[0]['rv']['ops'][0])[0] == 'call@bb%d' % [c for c in rl.calls() if rl.access_path(c.args[0]) == ['arg2']][0].bb
-            sw = [bb for bb, t in rl.terms() if t['k'] == 'switch' and rl.access_path(t['discr']) == ['call@bb%d' % isok[0].bb]]
-            ok = ok and len(sw) == 1
-            if ok:
-                # every path from the true edge to return passes wait_for_answer
-                true = [d for d, lab in rl.edges(sw[0]) if lab != 'sw:0']
-                ok = len(true) == 1 and not (rl.reachable(true, removed_blocks=[wt[0].bb]) & set(rl.return_blocks()))
-                ok = ok and rl.access_path(isok[0].args[0]) == ['call@bb%d' % snd[0].bb, '&']
+            mp = [c for c in rl.calls() if rl.access_path(c.args[0]) == ['arg2']] if msg else []
+            ok = bool(mp) and (rl.access_path(msg[0]['rv']['ops'][0]) or [''])[0] == 'call@bb%d' % mp[0].bb
         R5.check(ok, cfg, rl.path, 'waits-for-own-token-after-successful-send', 'reload must wait for the answer carrying the token it just sent, on every path after a successful send', rl.loc())
     # reloader: notify(token) after update_if_local returns
     ul = [c for c in th.calls() if c.callee and c.callee.name == 'update_if_local']
